@@ -166,8 +166,9 @@ def prog(style: int, kind: int, level: int, k: int, cos: bool,
                 if (style == 0 and o in (4, 5)) or (style == 1 and o in (2, 3)):
                     check('C18.pop_returns', res[1] == exp[1], dict(info, popkind=('int' if (style == 0 or o == 3) else 'key')))
                 check('C18.one_event', len(events) == nev + 1, dict(info, n=len(events) - nev))
-                if model != before:
-                    # a changes-only watcher is told about every mutation that changes the objects
+                if model != before and (style == 0 or all(kk is not None for kk, _ in list(model) + list(before))):
+                    # a changes-only watcher is told about every mutation that changes the objects (when every object
+                    # has a name: with unnamed, auto-added objects the event payload is the name mapping, which need not change)
                     check('C18.one_event', len(changed_events) == ncev + 1, dict(info, n=len(changed_events) - ncev, changes_only=True))
         else:
             # value assignment: membership checked against the *current* objects
